@@ -1287,11 +1287,14 @@ func parsePrimitiveCase(raw string, schema *openapi3.SchemaRef, typ string) (any
 		}
 		return v, nil
 	case "boolean":
-		v, err := strconv.ParseBool(raw)
-		if err != nil {
-			return nil, &ParseError{Kind: KindInvalidFormat, Value: raw, Reason: "an invalid " + typ, Cause: err.(*strconv.NumError).Err}
+		// true and false: 1, t, T, TRUE, 0, f ... are Go's spellings, not booleans of a request
+		switch raw {
+		case "true":
+			return true, nil
+		case "false":
+			return false, nil
 		}
-		return v, nil
+		return nil, &ParseError{Kind: KindInvalidFormat, Value: raw, Reason: "an invalid " + typ, Cause: strconv.ErrSyntax}
 	case "string":
 		return raw, nil
 	default:
